@@ -1240,3 +1240,28 @@ pub fn detect_lost_native(age_ms: u16) -> u32 {
     assert!(paths::in_flight_bytes(&conn.path) == 100 * kept, "bytes in flight do not match the outstanding packets");
     1 + expect_lost as u32
 }
+
+/// Native replay body for the E2 slice query `e2_path_validation_timeout_slice` (C15), on a real server
+/// that permits migration: `rounds` times in a row a non-probing packet arrives from a spoofed address
+/// (the connection moves there, unvalidated), nothing ever answers the challenge, and the PathValidation
+/// timer fires.  Every time the server must be back on the original, validated path with no challenge
+/// left over - otherwise the next migration would not remember that path and a second failed validation
+/// would have nothing to return to.
+pub fn path_validation_timeout_native(rounds: u8) -> u32 {
+    let mut conn = mk_migratable_server();
+    let now = crate::verif::mk_instant(51, 0).unwrap();
+    let home = addr(1, 4433);
+    deliver_short(&mut conn, now, home, 10, &[0x01]);
+    for r in 0..rounds.min(4) {
+        let spoofed = addr(66 + r, 7777);
+        deliver_short(&mut conn, now, spoofed, 11 + r, &[0x01]);
+        assert!(conn.path.remote == spoofed && !conn.path.validated, "round {}: no migration took place", r);
+        assert!(conn.prev_path.as_ref().map(|p| p.1.remote) == Some(home), "round {}: the validated path was not remembered when migrating", r);
+        let deadline = conn.timers.get(Timer::PathValidation).expect("path validation timer armed");
+        conn.handle_timeout(deadline);
+        assert!(conn.path.remote == home && conn.path.validated, "round {}: the server did not return to the validated path after validation failed", r);
+        assert!(conn.path.challenge.is_none() && !conn.path.challenge_pending, "round {}: a challenge is still outstanding on the path returned to", r);
+        assert!(!conn.state.is_closed());
+    }
+    rounds as u32
+}
